@@ -123,8 +123,16 @@ func (g *Gen) binopInt(op token.Token, x, y Term, ii IntInfo, at, bt, rt types.T
 		if cv, ok := parseIntLit(y.S); ok && cv.IsInt64() && cv.Int64() < 63 {
 			return mk(app("div", x.S, pow2(int(cv.Int64())).String()))
 		}
-	case token.AND, token.OR, token.AND_NOT:
-		if !ii.Signed {
+	case token.AND, token.OR, token.AND_NOT, token.XOR:
+		// for signed operands the encodings below are two's-complement correct for x >= 0 only: obligation
+		if ii.Signed && checked {
+			if _, ok := parseIntLit(y.S); ok {
+				g.oblige("bitop", Term{app("<=", "0", x.S), SBool}, "bit operation with a constant on a non-negative signed value")
+			} else if _, ok := parseIntLit(x.S); ok {
+				g.oblige("bitop", Term{app("<=", "0", y.S), SBool}, "bit operation with a constant on a non-negative signed value")
+			}
+		}
+		{
 			if cv, ok := parseIntLit(y.S); ok {
 				if r, ok := intBitop(op.String(), x.S, cv); ok {
 					return mk(r)
@@ -153,26 +161,44 @@ func intBitop(op string, x string, c *big.Int) (string, bool) {
 		}
 	}
 	singleBit := c.Sign() > 0 && new(big.Int).And(c, new(big.Int).Sub(c, big.NewInt(1))).Sign() == 0
-	bitval := func() string { return app("*", c.String(), app("mod", app("div", x, c.String()), "2")) }
-	switch op {
-	case "&":
+	bitOf := func(k int) string { // value of bit k of x scaled: 2^k * bit
+		p := pow2(k).String()
+		return app("*", p, app("mod", app("div", x, p), "2"))
+	}
+	andConst := func() (string, bool) {
 		if isMask(c) {
 			return app("mod", x, new(big.Int).Add(c, big.NewInt(1)).String()), true
 		}
-		if singleBit {
-			return bitval(), true
+		if c.Sign() <= 0 || c.BitLen() > 64 {
+			return "", false
 		}
+		var parts []string
+		for k := 0; k < c.BitLen(); k++ {
+			if c.Bit(k) == 1 {
+				parts = append(parts, bitOf(k))
+			}
+		}
+		if len(parts) == 1 {
+			return parts[0], true
+		}
+		return app("+", parts...), true
+	}
+	_ = singleBit
+	switch op {
+	case "&":
+		return andConst()
 	case "|":
-		if singleBit {
-			return app("-", app("+", x, c.String()), bitval()), true
+		if a, ok := andConst(); ok {
+			return app("-", app("+", x, c.String()), a), true
 		}
 	case "&^":
-		if singleBit {
-			return app("-", x, bitval()), true
+		if a, ok := andConst(); ok {
+			return app("-", x, a), true
 		}
-		if isMask(c) {
-			m := new(big.Int).Add(c, big.NewInt(1)).String()
-			return app("-", x, app("mod", x, m)), true
+	case "^":
+		if a, ok := andConst(); ok {
+			// x ^ c = x + c - 2*(x & c)
+			return app("-", app("+", x, c.String()), app("*", "2", a)), true
 		}
 	}
 	return "", false
